@@ -516,3 +516,174 @@ pub proof fn lemma_origin_insert_extra(c: IMap<CoinID, CoinDataHeight>, tx: Tran
         if cid(tx2, i2) == cid(tx, i) { assert(spec_txhash(tx2) == spec_txhash(tx)); assert(i2 as u8 == i as u8); assert(i2 == i); assert(tx2.outputs@ == tx.outputs@); assert(false); }
     }
 }
+
+// ---- the deposit phase over all pools named by the block's deposit requests (process_deposits)
+pub open spec fn deposit_pred<C: ContentAddrStore>(s: UnsealedState<C>) -> spec_fn(Transaction) -> bool { |tx: Transaction| is_deposit_req(s, tx) }
+pub open spec fn dep_reqs_ok(c0: IMap<CoinID, CoinDataHeight>, reqs: Seq<Transaction>) -> bool {
+    &&& reqs_distinct(reqs)
+    &&& forall|j: int| 0 <= j < reqs.len() ==> ({ let tx = #[trigger] reqs[j];
+            tx.outputs@.len() >= 2 && c0.contains_key(cid(tx, 0)) && c0.contains_key(cid(tx, 1)) && spec_req_key(tx.data@) is Some && tx.outputs@[0].value.0 > 0 && tx.outputs@[1].value.0 > 0 })
+}
+pub open spec fn dep_tl(reqs: Seq<Transaction>, k: PoolKey) -> int { sat_sum(out_vals(pool_reqs(reqs, k), 0), pool_reqs(reqs, k).len() as int) }
+pub open spec fn dep_tr(reqs: Seq<Transaction>, k: PoolKey) -> int { sat_sum(out_vals(pool_reqs(reqs, k), 1), pool_reqs(reqs, k).len() as int) }
+pub open spec fn dep_shares_ok(reqs: Seq<Transaction>, k: PoolKey, minted: int) -> bool {
+    0 <= minted <= u128::MAX && share_sum(minted, dep_weights(pool_reqs(reqs, k)), dep_divisor(pool_reqs(reqs, k)), pool_reqs(reqs, k).len() as int) <= minted
+}
+/// the pools in `done` have had their deposits settled (mint(k) = liquidity recorded for pool k's deposits of this block)
+pub open spec fn deps_done(pools0: Map<PoolKey, PoolState>, c0: IMap<CoinID, CoinDataHeight>, height: BlockHeight, legacy: bool, reqs: Seq<Transaction>, done: ISet<PoolKey>,
+                           mint: spec_fn(PoolKey) -> int, pools1: Map<PoolKey, PoolState>, c1: IMap<CoinID, CoinDataHeight>) -> bool {
+    &&& forall|k: PoolKey| #[trigger] pools1.contains_key(k) <==> (pools0.contains_key(k) || done.contains(k))
+    &&& forall|k: PoolKey| #[trigger] pools1.contains_key(k) ==> (if done.contains(k) { pool_deposited(pool_or_empty(pools0, k), pools1[k], dep_tl(reqs, k), dep_tr(reqs, k), mint(k)) && dep_shares_ok(reqs, k, mint(k)) }
+                                                                 else { pools1[k] == pools0[k] })
+    &&& !legacy ==> deps_coins_done(c0, height, reqs, done, mint, c1)
+}
+pub open spec fn dep_gone(reqs: Seq<Transaction>, done: ISet<PoolKey>, id: CoinID) -> bool { exists|j: int| 0 <= j < reqs.len() && done.contains(swap_key(#[trigger] reqs[j])) && id == cid(reqs[j], 1) }
+pub open spec fn deps_coins_done(c0: IMap<CoinID, CoinDataHeight>, height: BlockHeight, reqs: Seq<Transaction>, done: ISet<PoolKey>, mint: spec_fn(PoolKey) -> int, c1: IMap<CoinID, CoinDataHeight>) -> bool {
+    &&& forall|id: CoinID| #[trigger] c1.contains_key(id) <==> (c0.contains_key(id) && !dep_gone(reqs, done, id))
+    &&& forall|j: int| 0 <= j < reqs.len() ==> ({ let tx = #[trigger] reqs[j]; let k = swap_key(tx);
+            if done.contains(k) { dep_coin(tx, k, mint(k), dep_divisor(pool_reqs(reqs, k)), height, c1[cid(tx, 0)]) } else { c1[cid(tx, 0)] == c0[cid(tx, 0)] } })
+    &&& forall|id: CoinID| c1.contains_key(id) && !(exists|j: int| 0 <= j < reqs.len() && id == cid(#[trigger] reqs[j], 0)) ==> #[trigger] c1[id] == c0[id]
+}
+pub proof fn lemma_selected_deposits<C: ContentAddrStore>(s: UnsealedState<C>, reqs: Seq<Transaction>)
+    requires selected(s.transactions@, reqs, deposit_pred(s)), txs_keyed(s.transactions@)
+    ensures dep_reqs_ok(s.coins@.coins, reqs), forall|j: int| 0 <= j < reqs.len() ==> is_deposit_req(s, #[trigger] reqs[j])
+{
+    let txs = s.transactions@;
+    let ks = choose|ks: Seq<TxHash>| #[trigger] is_enum(txs, ks) && reqs == Seq::new(ks.len(), |i: int| txs[ks[i]]).filter(deposit_pred(s));
+    let items = Seq::new(ks.len(), |i: int| txs[ks[i]]);
+    assert(reqs_distinct(items)) by {
+        assert forall|i: int, j: int| 0 <= i < j < items.len() implies spec_txhash(#[trigger] items[i]) != spec_txhash(#[trigger] items[j]) by {
+            assert(ks.contains(ks[i]) && ks.contains(ks[j])); assert(txs.contains_key(ks[i]) && txs.contains_key(ks[j]));
+            assert(spec_txhash(txs[ks[i]]) == ks[i] && spec_txhash(txs[ks[j]]) == ks[j]);
+        }
+    }
+    lemma_filter_distinct(items, deposit_pred(s));
+    lemma_filter_mem(items, deposit_pred(s));
+    assert forall|j: int| 0 <= j < reqs.len() implies is_deposit_req(s, #[trigger] reqs[j]) by { assert(reqs.contains(reqs[j])); assert(deposit_pred(s)(reqs[j])); }
+}
+pub proof fn lemma_pool_deps_pre(c0: IMap<CoinID, CoinDataHeight>, reqs: Seq<Transaction>, k: PoolKey)
+    requires dep_reqs_ok(c0, reqs)
+    ensures deposits_pre(pool_reqs(reqs, k), k)
+{
+    let rk = pool_reqs(reqs, k);
+    lemma_filter_mem(reqs, for_pool(k));
+    lemma_filter_distinct(reqs, for_pool(k));
+    assert forall|i: int| 0 <= i < rk.len() implies (#[trigger] rk[i]).outputs@.len() >= 2 && rk[i].outputs@[0].value.0 > 0 && rk[i].outputs@[1].value.0 > 0 by {
+        assert(rk.contains(rk[i])); let j = choose|j: int| 0 <= j < reqs.len() && reqs[j] == rk[i];
+    }
+}
+pub proof fn lemma_deps_done_step(pools0: Map<PoolKey, PoolState>, c0: IMap<CoinID, CoinDataHeight>, height: BlockHeight, legacy: bool, reqs: Seq<Transaction>, done: ISet<PoolKey>,
+        mint: spec_fn(PoolKey) -> int, pb: Map<PoolKey, PoolState>, cb: IMap<CoinID, CoinDataHeight>, k: PoolKey, p1: Map<PoolKey, PoolState>, c1: IMap<CoinID, CoinDataHeight>, minted: int)
+    requires dep_reqs_ok(c0, reqs), deps_done(pools0, c0, height, legacy, reqs, done, mint, pb, cb), !done.contains(k), mentions(reqs, k),
+             deposits_result(pb, cb, pool_reqs(reqs, k), k, height, legacy, p1, c1, minted)
+    ensures deps_done(pools0, c0, height, legacy, reqs, done.insert(k), |k2: PoolKey| if k2 == k { minted } else { mint(k2) }, p1, c1)
+{
+    broadcast use axiom_txhash_inj;
+    let rk = pool_reqs(reqs, k); let d2 = done.insert(k); let m2 = |k2: PoolKey| if k2 == k { minted } else { mint(k2) };
+    lemma_filter_mem(reqs, for_pool(k));
+    assert(pool_or_empty(pb, k) == pool_or_empty(pools0, k));
+    assert forall|k2: PoolKey| #[trigger] p1.contains_key(k2) <==> (pools0.contains_key(k2) || d2.contains(k2)) by {}
+    if !legacy {
+        let n = rk.len() as int; let div = dep_divisor(rk);
+        // a first/second output id of a request of pool k belongs to a request in rk
+        assert forall|j: int, i: int, w: int, w2: int| 0 <= j < reqs.len() && 0 <= i < rk.len() && (w == 0 || w == 1) && (w2 == 0 || w2 == 1) && #[trigger] cid(reqs[j], w) == #[trigger] cid(rk[i], w2) implies reqs[j] == rk[i] && w == w2 by {
+            assert(rk.contains(rk[i])); let q = choose|q: int| 0 <= q < reqs.len() && reqs[q] == rk[i];
+            assert(spec_txhash(reqs[j]) == spec_txhash(reqs[q]));
+            if j != q { if j < q { assert(spec_txhash(reqs[j]) != spec_txhash(reqs[q])); } else { assert(spec_txhash(reqs[q]) != spec_txhash(reqs[j])); } }
+        }
+        assert forall|id: CoinID| true implies (#[trigger] dep_gone(reqs, d2, id) <==> (dep_gone(reqs, done, id) || exists|i: int| 0 <= i < n && id == cid(#[trigger] rk[i], 1))) by {
+            if dep_gone(reqs, d2, id) { let j = choose|j: int| 0 <= j < reqs.len() && d2.contains(swap_key(#[trigger] reqs[j])) && id == cid(reqs[j], 1);
+                if swap_key(reqs[j]) == k { assert(for_pool(k)(reqs[j])); assert(reqs.contains(reqs[j])); assert(rk.contains(reqs[j])); let i = choose|i: int| 0 <= i < rk.len() && rk[i] == reqs[j]; assert(id == cid(rk[i], 1)); }
+                else { assert(done.contains(swap_key(reqs[j]))); assert(dep_gone(reqs, done, id)); } }
+            if dep_gone(reqs, done, id) { let j = choose|j: int| 0 <= j < reqs.len() && done.contains(swap_key(#[trigger] reqs[j])) && id == cid(reqs[j], 1); assert(d2.contains(swap_key(reqs[j]))); }
+            if exists|i: int| 0 <= i < n && id == cid(#[trigger] rk[i], 1) { let i = choose|i: int| 0 <= i < n && id == cid(#[trigger] rk[i], 1);
+                assert(rk.contains(rk[i])); let q = choose|q: int| 0 <= q < reqs.len() && reqs[q] == rk[i]; assert(for_pool(k)(reqs[q])); assert(d2.contains(swap_key(reqs[q])) && id == cid(reqs[q], 1)); }
+        }
+        assert forall|id: CoinID| #[trigger] c1.contains_key(id) <==> (c0.contains_key(id) && !dep_gone(reqs, d2, id)) by {
+            if exists|i: int| 0 <= i < n && id == cid(#[trigger] rk[i], 0) { let i = choose|i: int| 0 <= i < n && id == cid(#[trigger] rk[i], 0);
+                assert(rk.contains(rk[i])); let q = choose|q: int| 0 <= q < reqs.len() && reqs[q] == rk[i]; assert(c0.contains_key(cid(reqs[q], 0)));
+                // an id of a first output is never the id of a second output that was consumed
+                if dep_gone(reqs, done, id) { let j = choose|j: int| 0 <= j < reqs.len() && done.contains(swap_key(#[trigger] reqs[j])) && id == cid(reqs[j], 1); assert(cid(reqs[j], 1) == cid(rk[i], 0)); }
+                assert(cb.contains_key(id));
+            }
+            assert(cb.contains_key(id) <==> (c0.contains_key(id) && !dep_gone(reqs, done, id)));
+        }
+        assert forall|j: int| 0 <= j < reqs.len() implies ({ let tx = #[trigger] reqs[j]; let kk = swap_key(tx);
+                if d2.contains(kk) { dep_coin(tx, kk, m2(kk), dep_divisor(pool_reqs(reqs, kk)), height, c1[cid(tx, 0)]) } else { c1[cid(tx, 0)] == c0[cid(tx, 0)] } }) by {
+            let tx = reqs[j]; let kk = swap_key(tx);
+            if kk == k {
+                assert(for_pool(k)(tx)); assert(reqs.contains(tx)); assert(rk.contains(tx));
+                let i = choose|i: int| 0 <= i < rk.len() && rk[i] == tx;
+                assert(dep_coin(rk[i], k, minted, div, height, c1[cid(rk[i], 0)]));
+            } else {
+                assert(!(exists|i: int| 0 <= i < n && cid(tx, 0) == cid(#[trigger] rk[i], 0))) by {
+                    if exists|i: int| 0 <= i < n && cid(tx, 0) == cid(#[trigger] rk[i], 0) { let i = choose|i: int| 0 <= i < n && cid(tx, 0) == cid(#[trigger] rk[i], 0);
+                        assert(cid(reqs[j], 0) == cid(rk[i], 0)); assert(reqs[j] == rk[i]); assert(rk.contains(rk[i])); assert(for_pool(k)(rk[i])); } }
+                assert(!(exists|i: int| 0 <= i < n && cid(tx, 0) == cid(#[trigger] rk[i], 1))) by {
+                    if exists|i: int| 0 <= i < n && cid(tx, 0) == cid(#[trigger] rk[i], 1) { let i = choose|i: int| 0 <= i < n && cid(tx, 0) == cid(#[trigger] rk[i], 1); assert(cid(reqs[j], 0) == cid(rk[i], 1)); } }
+                assert(c0.contains_key(cid(tx, 0)));
+                assert(!dep_gone(reqs, done, cid(tx, 0))) by { if dep_gone(reqs, done, cid(tx, 0)) { let j2 = choose|j2: int| 0 <= j2 < reqs.len() && done.contains(swap_key(#[trigger] reqs[j2])) && cid(tx, 0) == cid(reqs[j2], 1); assert(cid(reqs[j], 0) == cid(reqs[j2], 1)); assert((0 as u8) == (1 as u8)); } }
+                assert(cb.contains_key(cid(tx, 0)));
+                assert(c1.contains_key(cid(tx, 0)));
+                assert(c1[cid(tx, 0)] == cb[cid(tx, 0)]);
+            }
+        }
+        assert forall|id: CoinID| c1.contains_key(id) && !(exists|j: int| 0 <= j < reqs.len() && id == cid(#[trigger] reqs[j], 0)) implies #[trigger] c1[id] == c0[id] by {
+            assert(!(exists|i: int| 0 <= i < n && id == cid(#[trigger] rk[i], 0))) by {
+                if exists|i: int| 0 <= i < n && id == cid(#[trigger] rk[i], 0) { let i = choose|i: int| 0 <= i < n && id == cid(#[trigger] rk[i], 0);
+                    assert(rk.contains(rk[i])); let q = choose|q: int| 0 <= q < reqs.len() && reqs[q] == rk[i]; assert(id == cid(reqs[q], 0)); } }
+            assert(c1[id] == cb[id]);
+        }
+    }
+}
+/// `reqs` are pairwise different transactions of the block
+pub open spec fn reqs_from(txs: Map<TxHash, Transaction>, reqs: Seq<Transaction>) -> bool {
+    reqs_distinct(reqs) && forall|i: int| 0 <= i < reqs.len() ==> txs.contains_key(spec_txhash(#[trigger] reqs[i])) && txs[spec_txhash(reqs[i])] == reqs[i]
+}
+/// C09 envelope of the deposit phase: the weights isqrt(l)*isqrt(r) of any set of the block's transactions (each below 2^120) add up to less than 2^128
+pub open spec fn deposit_weights_fit(txs: Map<TxHash, Transaction>) -> bool {
+    forall|reqs: Seq<Transaction>| #[trigger] reqs_from(txs, reqs) && (forall|i: int| 0 <= i < reqs.len() ==> (#[trigger] reqs[i]).outputs@.len() >= 2) ==> true_sum(dep_weights(reqs), reqs.len() as int) <= u128::MAX
+}
+pub proof fn lemma_selected_from<C: ContentAddrStore>(s: UnsealedState<C>, reqs: Seq<Transaction>, p: spec_fn(Transaction) -> bool, k: PoolKey)
+    requires selected(s.transactions@, reqs, p), txs_keyed(s.transactions@)
+    ensures reqs_from(s.transactions@, reqs), reqs_from(s.transactions@, pool_reqs(reqs, k))
+{
+    let txs = s.transactions@;
+    let ks = choose|ks: Seq<TxHash>| #[trigger] is_enum(txs, ks) && reqs == Seq::new(ks.len(), |i: int| txs[ks[i]]).filter(p);
+    let items = Seq::new(ks.len(), |i: int| txs[ks[i]]);
+    assert(reqs_distinct(items)) by {
+        assert forall|i: int, j: int| 0 <= i < j < items.len() implies spec_txhash(#[trigger] items[i]) != spec_txhash(#[trigger] items[j]) by {
+            assert(ks.contains(ks[i]) && ks.contains(ks[j])); assert(txs.contains_key(ks[i]) && txs.contains_key(ks[j]));
+            assert(spec_txhash(txs[ks[i]]) == ks[i] && spec_txhash(txs[ks[j]]) == ks[j]);
+        }
+    }
+    lemma_filter_distinct(items, p); lemma_filter_mem(items, p);
+    lemma_filter_distinct(reqs, for_pool(k)); lemma_filter_mem(reqs, for_pool(k));
+    assert forall|i: int| 0 <= i < reqs.len() implies txs.contains_key(spec_txhash(#[trigger] reqs[i])) && txs[spec_txhash(reqs[i])] == reqs[i] by {
+        assert(reqs.contains(reqs[i])); let q = choose|q: int| 0 <= q < items.len() && items[q] == reqs[i]; assert(ks.contains(ks[q])); assert(txs.contains_key(ks[q])); assert(spec_txhash(txs[ks[q]]) == ks[q]);
+    }
+    let rk = pool_reqs(reqs, k);
+    assert forall|i: int| 0 <= i < rk.len() implies txs.contains_key(spec_txhash(#[trigger] rk[i])) && txs[spec_txhash(rk[i])] == rk[i] by {
+        assert(rk.contains(rk[i])); let q = choose|q: int| 0 <= q < reqs.len() && reqs[q] == rk[i];
+    }
+}
+/// a pool that took a deposit is live with non-zero liquidity (pools_ok is kept)
+pub proof fn lemma_deposit_keeps_ok(pools0: Map<PoolKey, PoolState>, reqs: Seq<Transaction>, k: PoolKey, p1: PoolState, minted: int, c0: IMap<CoinID, CoinDataHeight>)
+    requires pools_ok(pools0), mentions(reqs, k), dep_reqs_ok(c0, reqs), pool_deposited(pool_or_empty(pools0, k), p1, dep_tl(reqs, k), dep_tr(reqs, k), minted), 0 <= minted
+    ensures pool_live(p1) && p1.liqs > 0
+{
+    let rk = pool_reqs(reqs, k);
+    lemma_filter_mem(reqs, for_pool(k));
+    let j = choose|j: int| 0 <= j < reqs.len() && spec_req_key((#[trigger] reqs[j]).data@) == Some(k);
+    assert(for_pool(k)(reqs[j])); assert(reqs.contains(reqs[j])); assert(rk.contains(reqs[j]));
+    let i = choose|i: int| 0 <= i < rk.len() && rk[i] == reqs[j];
+    lemma_pool_deps_pre(c0, reqs, k);
+    lemma_sat_sum_bounds(out_vals(rk, 0), rk.len() as int); lemma_sat_sum_bounds(out_vals(rk, 1), rk.len() as int);
+    assert(out_vals(rk, 0)[i] >= 1 && out_vals(rk, 1)[i] >= 1);
+    assert(dep_tl(reqs, k) >= 1 && dep_tr(reqs, k) >= 1);
+    let p0 = pool_or_empty(pools0, k);
+    if pools0.contains_key(k) { assert((pool_live(p0) && p0.liqs > 0) || (p0.lefts == 0 && p0.rights == 0 && p0.liqs == 0)); }
+}
+pub open spec fn mentioned_set(reqs: Seq<Transaction>) -> ISet<PoolKey> { ISet::new(|k: PoolKey| mentions(reqs, k)) }
+/// the envelopes of the pool-settlement phases (declared uninterpreted in lemmas/sealenv_opaque.rs for the sealing unit)
+pub open spec fn seal_env<C: ContentAddrStore>(s: UnsealedState<C>) -> bool { deposit_weights_fit(s.transactions@) }
